@@ -146,7 +146,7 @@ func demonstrateUndeclaredStore(detail string, scratch string) string {
 	db := e.R[0].DB
 	e.R[0].App = nil
 	// rewrite the commit info of the latest version without the store
-	latest := int64(len(e.Blocks))
+	latest := e.head()
 	key := []byte(fmt.Sprintf("s/%d", latest))
 	bz, err := db.Get(key)
 	if err != nil || bz == nil {
